@@ -16,7 +16,7 @@ esac
 hash=$( (cd "$REPO" && find . -path ./.git -prune -o -path ./_build -prune -o -type f \
       \( -name '*.c' -o -name '*.h' -o -name '*.asm' -o -name '*.inc' -o -name '*.S' -o -name 'Makefile.am' \
          -o -name 'Makefile.unx' -o -name 'make.inc' -o -name '*.mk' \) -print0 | sort -z | xargs -0 sha256sum; \
-      echo "$cfg $extra v3") | sha256sum | cut -c1-16)
+      echo "$cfg $extra v4") | sha256sum | cut -c1-16)
 dir="$BUILD/$cfg-$hash"
 exec 9>"$BUILD/.lock-$cfg"
 flock 9
@@ -27,6 +27,9 @@ if [ ! -f "$dir/.ok" ]; then
     echo "BUILD FAILED (see $dir/build.log)" >&2; tail -20 "$dir/build.log" >&2; exit 2
   fi
   nm "$dir/isa-l_crypto.a" > "$dir/nm.txt" 2>/dev/null || true
+  if ! python3 "$ROOT/tools/isa_classify.py" "$dir/obj" "$dir/isa_need.tsv" >>"$dir/build.log" 2>&1; then
+    echo "ISA CLASSIFIER FAILED (see $dir/build.log)" >&2; exit 2
+  fi
   touch "$dir/.ok"
   # prune older builds of this cfg
   for d in "$BUILD/$cfg"-*; do [ "$d" != "$dir" ] && rm -rf "$d"; done
